@@ -577,15 +577,73 @@ func genSim(r *common.Rng) simCase {
 	ty := func() string { return []string{"unsigned", "unsigned", "", "hex", "bin"}[r.Intn(5)] }
 	n := 2 + r.Intn(7)
 	size := 0
-	add := func(s string) {
+	// mode 0: suspended with probability 1/4 (sometimes reactivated); 1: suspended; 2: active
+	addM := func(s string, mode int) {
 		c.edits = append(c.edits, [2]string{"add", hx(s)})
 		size++
-		if r.Chance(1, 4) {
+		switch {
+		case mode == 1:
+			c.edits = append(c.edits, [2]string{"sus", strconv.Itoa(size - 1)})
+		case mode == 0 && r.Chance(1, 4):
 			c.edits = append(c.edits, [2]string{"sus", strconv.Itoa(size - 1)})
 			if r.Chance(1, 4) {
 				c.edits = append(c.edits, [2]string{"rea", strconv.Itoa(size - 1)})
 			}
 		}
+	}
+	add := func(s string) { addM(s, 0) }
+	forceReport := false
+	// bulk configuration scenario: one of the `config:<option>[:<format>]` rules the simulator acts
+	// on (every option SimConfig.Init / SimReport.Init know), active or SUSPENDED, then timed
+	// get/show rules with another format on elements the bulk rule covers (bond end points, and
+	// the processor registers for the *_internal options), and a value that prints differently
+	// in every format
+	bulkScenario := func() {
+		fm := func() string { return []string{"unsigned", "hex", "bin", ""}[r.Intn(4)] }
+		covered := append([]string{}, io...)
+		switch c.machine {
+		case "proc":
+			covered = append(covered, "p0i0", "p0o0")
+		case "fan":
+			covered = append(covered, "p0i0")
+		}
+		opt := []string{"get_all", "get_all_internal", "show_all", "show_all_internal", "get_all", "show_all",
+			"get_ticks", "show_ticks", "show_io_pre", "show_io_post"}[r.Intn(10)]
+		mode := 1 + r.Intn(2)
+		f1 := fm()
+		switch opt {
+		case "get_ticks", "show_ticks", "show_io_pre", "show_io_post":
+			addM("config:"+opt, mode)
+		default:
+			addM("config:"+opt+":"+f1, mode)
+		}
+		if strings.HasSuffix(opt, "_internal") {
+			covered = append(covered, "p0r0", "p0r1", "p0r3")
+		}
+		act := "show"
+		if strings.HasPrefix(opt, "get") {
+			act = "get"
+			forceReport = true
+		}
+		addM("absolute:"+[]string{"0", "1"}[r.Intn(2)]+":set:"+pick(r, []string{"i0", "i1"})+":200", 2)
+		for k := 1 + r.Intn(3); k > 0; k-- {
+			f2 := fm()
+			if f2 == f1 {
+				f2 = fm()
+			}
+			if r.Chance(1, 2) {
+				addM("absolute:"+tk()+":"+act+":"+pick(r, covered)+":"+f2, 2)
+			} else {
+				addM("relative:"+per()+":"+act+":"+pick(r, covered)+":"+f2, 2)
+			}
+		}
+		if r.Chance(1, 3) { // a second bulk rule of the same family, the other way round
+			addM("config:"+[]string{"get_all", "get_all_internal", "show_all", "show_all_internal"}[r.Intn(4)]+":"+fm(), 3-mode)
+		}
+	}
+	if r.Chance(1, 3) {
+		bulkScenario()
+		n = r.Intn(4)
 	}
 	for i := 0; i < n; i++ {
 		switch k := r.Intn(24); {
@@ -644,7 +702,7 @@ func genSim(r *common.Rng) simCase {
 	if c.stop < 0 && r.Chance(1, 4) {
 		c.stop = r.Intn(2)
 	}
-	c.report = r.Chance(1, 2)
+	c.report = forceReport || r.Chance(1, 2)
 	return c
 }
 
@@ -654,7 +712,8 @@ func fixedSims() []simCase {
 		c := simCase{machine: machine, ticks: ticks, stop: stop, report: report}
 		for _, s := range rules {
 			if strings.HasPrefix(s, "!") {
-				c.edits = append(c.edits, [2]string{"add", hx(s[1:])}, [2]string{"sus", strconv.Itoa(countAdds(c.edits) - 1)})
+				c.edits = append(c.edits, [2]string{"add", hx(s[1:])})
+				c.edits = append(c.edits, [2]string{"sus", strconv.Itoa(countAdds(c.edits) - 1)})
 			} else {
 				c.edits = append(c.edits, [2]string{"add", hx(s)})
 			}
@@ -676,6 +735,19 @@ func fixedSims() []simCase {
 		mk("wirep", 4, -1, false, "absolute:1:show:i0v:unsigned"),
 		mk("wirep", 4, -1, false, "absolute:1:set:r0:5"),
 		mk("fan", 8, 1, true, "absolute:1:set:i0:200", "onvalid:show:o1:hex", "onvalid:show:o0:bin", "onexit:show:i0", "config:get_all:unsigned"),
+		// bulk configuration rules, suspended and active, before timed rules on elements they cover
+		mk("wirep", 6, -1, true, "!config:get_all:hex", "absolute:0:set:i0:200", "absolute:3:get:o0:unsigned"),
+		mk("wirep", 6, -1, true, "config:get_all:hex", "absolute:0:set:i0:200", "absolute:3:get:o0:unsigned"),
+		mk("proc", 6, -1, true, "!config:get_all_internal:bin", "absolute:1:set:p0r1:200", "relative:2:get:p0r1:unsigned", "absolute:2:get:i0:hex"),
+		mk("proc", 6, -1, true, "config:get_all_internal:bin", "absolute:1:set:p0r1:200", "relative:2:get:p0r1:unsigned"),
+		mk("wirep", 6, -1, false, "!config:show_all:hex", "absolute:0:set:i0:200", "absolute:3:show:o0:unsigned", "relative:2:show:i1:bin"),
+		mk("wirep", 6, -1, false, "config:show_all:hex", "absolute:0:set:i0:200", "absolute:3:show:o0:unsigned", "relative:2:show:i1:bin"),
+		mk("proc", 6, -1, false, "!config:show_all_internal:bin", "absolute:1:set:p0r2:200", "relative:2:show:p0r2:unsigned", "absolute:1:show:i1:hex"),
+		mk("proc", 6, -1, false, "config:show_all_internal:", "absolute:1:set:p0r2:200", "relative:2:show:p0r2:hex"),
+		mk("wirep", 4, -1, true, "!config:get_ticks", "absolute:1:get:i0:unsigned"),
+		mk("wirep", 4, -1, true, "config:get_ticks", "!config:get_all:unsigned", "absolute:1:get:i0:hex"),
+		mk("wirep", 4, -1, true, "!config:get_all:hex", "config:get_all:bin", "absolute:0:set:i1:200"),
+		mk("wirep", 4, -1, true, "!config:show_ticks", "!config:show_io_pre", "!config:show_io_post", "absolute:1:set:i0:5", "relative:1:get:o0:unsigned"),
 	}
 }
 
